@@ -151,7 +151,7 @@ def run(F, rep, tier, allfacts):
     if os.environ.get("FV_WRITE_TABLES") == "1":
         json.dump({k: {"guards": [g for g, _ in v], "why_cannot_fire": ""} for k, v in sorted(sites.items())}, open(TABLE + ".new", "w"), indent=1, sort_keys=True)
     table = json.load(open(TABLE))
-    rep.floor("WHO-panic", "non-constant panic-capable sites", len(sites), 10)
+    rep.floor("WHO-panic", "non-constant panic-capable sites", len(sites), 8)
     tables.compare(rep, "WHO-panic", table, sites, missing_is_violation=False, new_is_violation=True, what="panic-capable operation reachable from decoding", reason_key="why_cannot_fire")
 
     # ---------------- reader
